@@ -8,7 +8,7 @@ SSE = "small-scope exhaustive enumeration "
 CHECKS = {
  "C01": dict(cat=E, ref="§5 C01", tech=PBT + "over plaintexts/keys/randomness modes/4 I/O schedules + " + SSE + "of read partitions through the hooked chunk loops; oracle: round-trip identity, reported sender = S's public key",
    text="Generated-input search: round trip through the real key_encrypt/key_decrypt with scripted short reads and partial writes (lengths biased to 0 and k*65536±1), plus every composition of every length 0..=3cs+1 into reads for chunk sizes 1..4 (thorough 1..6) through the chunk loops. Finds counterexamples; does not prove absence.",
-   note="Readers are conforming; sizes up to 300 kB quick / 4 MiB thorough; kestrel's own randomness is not pinned; the chunk loop is parametric in the chunk size (layer A samples the real size)."),
+   note="Readers are conforming; sizes up to 300 kB quick / 4 MiB thorough; kestrel's own randomness is not pinned; the chunk loop is parametric in the chunk size (layer A samples the real size); run against the library built with and without debug assertions."),
  "C02": dict(cat=E, ref="§5 C02", tech=PBT + "over plaintexts, byte-string passwords, salts, I/O schedules; oracle: round trip + every generated non-equivalent wrong password rejected with zero bytes released",
    text="Round trip through pass_encrypt/pass_decrypt for empty/ASCII/Unicode/raw/62..300-byte passwords, then decryption under constructed wrong passwords (1-bit flip, last byte, prefix, appended byte, case, empty, unrelated) which must fail before any write.",
    note="Passwords that are the same HMAC key (w vs w||00, long w vs SHA-256(w)) derive the same scrypt key by RFC 2104/7914 and are excluded from 'other password'; bounded by scrypt cost (hundreds of cases quick, thousands thorough)."),
@@ -41,10 +41,10 @@ CHECKS = {
    note="Bounds are relative to the same build (+128 KiB) with generous absolute caps, so a benign extra buffer is not an alarm."),
  "C12": dict(cat=E, ref="§5 C12", tech=PBT + "over logical requests x keyring compositions x wiring variants of the real binary + " + SSE + "of all 64 wirings; oracle: exit status = by-construction verdict, content, sender line, metamorphic agreement of wirings",
    text="Runs the binary built from the working tree (CLI sources + working-tree library) in private directories with stdin/stdout/env/option-spelling/alias/order variants, damaged files, absent / look-alike senders, empty plaintexts, /dev/full and closed-pipe sinks, a longer file already at the -o path, and an unrelated KESTREL_KEYRING while -k is given.",
-   note="Linux, no terminal; each key operation costs one scrypt, so hundreds of invocations quick."),
+   note="Linux; passwords via --env-pass, and in one wiring typed at a pseudo-terminal (script(1)); each key operation costs one scrypt, so hundreds of invocations quick."),
  "C13": dict(cat=F, ref="§5 C13", tech=SSE + "of command x failure cause x prior state of the output path (generated instances) on the real binary; library companion by " + PBT + "; oracle: path unchanged (bytes, inode) / exactly the authenticated prefix",
    text="5 commands x every applicable listed cause (~125) x {absent, present} x instances; later-chunk failures must leave exactly the first j chunks.",
-   note="Linux; failure of the output device itself is not a listed cause."),
+   note="Linux; failure of the output device itself is not a listed cause; the typed-password causes need script(1) (skipped with a note otherwise)."),
  "C14": dict(cat=E, ref="§5 C14", tech=PBT + "over histories of `key generate -o F` on generated initial files; oracle: byte-prefix preservation, parse, presence, unlock, usability",
    text="After every generation the old bytes are a prefix, the file parses, every name is present, the new key unlocks with its password and matches its PublicKey line; generated keys then encrypt/decrypt; initial files up to 4 MiB are verified through the tool itself; a generation that cannot append (file-size limit) must fail and lose nothing; a stale KESTREL_NEW_PASSWORD must not matter.",
    note="Names/passwords via stdin/env; found and fixed F3."),
@@ -65,7 +65,7 @@ CHECKS = {
    note="kspec is the RFC reference (self-tested, OpenSSL-audited)."),
  "C20": dict(cat=E, ref="§5 C20", tech=PBT + "over generated clone/drop/move programs with allocator-side inspection at dealloc and read-back of inline storage",
    text="Every container value (from bytes, generated, cloned, clone_from target, boxed, boxed behind other bytes, inline at every address residue mod 8, dropped normally or while unwinding) must have zeroed key bytes in the storage it owns at the moment that storage is released.",
-   note="Only storage owned at drop time; not copies left by moves."),
+   note="Only storage owned at drop time; not copies left by moves; run against the library built with and without debug assertions."),
 }
 NA_REASON = {}
 def main():
@@ -99,7 +99,7 @@ def main():
         ],
         "checks": checks,
         "not_applicable": na,
-        "notes": "Every command is ./check <ID> <tier>; it rebuilds from /repo's working tree (content-hash freshness guard), runs kverif with VERIF_SEED, and rewrites /verif/evidence/<ID>.json. Exit 0 held / 1 VIOLATION / 2 inconclusive (build failure, oracle self-test failure, watchdog).",
+        "notes": "Every command is ./check <ID> <tier>; it rebuilds from /repo's working tree (content-hash freshness guard; two profiles: with and without debug assertions), runs kverif with VERIF_SEED, and rewrites /verif/evidence/<ID>.json. Exit 0 held / 1 VIOLATION / 2 inconclusive (build failure - e.g. a change to the signature of a crate-private keyring function kverif calls -, oracle self-test failure, hang of a non-C09 case, watchdog). An abnormal end of kverif is triaged from the per-worker crash trace and reported as a VIOLATION with a replay file when a traced case reproduces it.",
     }
     if not na: del m["not_applicable"]
     json.dump(m, open("/verif/MANIFEST.json", "w"), indent=1)
